@@ -18,6 +18,8 @@ type Cache struct {
 	Sizes map[string]uint16
 	// Last inserted value (regardless of scope)
 	LastValue string
+	// Frame the last inserted value lives in; the value is dropped together with that frame.
+	LastFrame uint32
 	invalid   bool
 }
 
@@ -75,6 +77,7 @@ func (ca *Cache) Add(key string, value string, sizeLimit uint16) error {
 	ca.CacheUseSize += sz
 	ca.Sizes[key] = sizeLimit
 	ca.LastValue = value
+	ca.LastFrame = uint32(len(ca.Cache) - 1)
 	return nil
 }
 
@@ -136,6 +139,9 @@ func (ca *Cache) Reset() {
 		return
 	}
 	ca.Cache = ca.Cache[:1]
+	if ca.LastFrame > 0 {
+		ca.LastValue = ""
+	}
 	ca.CacheUseSize = 0
 	for _, v = range ca.Cache[0] {
 		ca.CacheUseSize += uint32(len(v))
@@ -157,6 +163,10 @@ func (ca *Cache) Pop() error {
 		return fmt.Errorf("already at top level")
 	}
 	l -= 1
+	if ca.LastFrame >= uint32(l) {
+		// the last inserted value goes out of scope with its frame
+		ca.LastValue = ""
+	}
 	m := ca.Cache[l]
 	for k, v := range m {
 		sz := len(v)
